@@ -50,8 +50,13 @@ ReqInit(c) ==
     owedM    |-> {},           \* read times of unserved multicast triggers (RS from ::)
     owedU    |-> <<>>,         \* unanswered unicast solicitations [dst, t]
     pend     |-> <<>>,         \* forwarding reads not yet consumed by a wcall
+    inQuery  |-> FALSE,        \* a metrics scrape / debug API request is in progress (driver goroutine)
+    qreads   |-> <<>>,         \* forwarding reads made by that query
+    nFalse   |-> 0,            \* advertiser-path generations since the last quiescent point that found forwarding off
+    nMisLog  |-> 0,            \* interface_not_forwarding log lines since the last quiescent point
     nOpen    |-> 0,            \* WriteTo calls in flight
     nHeld    |-> 0,            \* gates held by the driver
+    anyHold  |-> FALSE,        \* the driver has held a call open in this scenario: delay bounds are then its doing
     cancelAt |-> -1, term |-> FALSE,
     upAtCancel |-> FALSE,      \* a fault-free session was up when the stop request arrived
     faultAtCancel |-> FALSE,   \* a fault was already pending when the stop request arrived
@@ -77,7 +82,7 @@ Bump(c, name) == [c EXCEPT ![name] = @ + 1]
 ---------------------------------------------------------------------------
 \* Deadlines that have passed at time T (evaluated at quiescent points).
 Deadlines(m, T) ==
-  IF ~Live(m) THEN m
+  IF ~Live(m) \/ m.anyHold THEN m
   ELSE IF \E i \in 1..Len(m.owedU) : T - m.owedU[i].t >= MaxRADelay THEN Flag(m, "c07-unanswered-in-time")
   ELSE IF \E t \in m.owedM : T - t > MinDelay THEN Flag(m, "c06-trigger-unserved")
   ELSE m
@@ -129,8 +134,28 @@ OnIn(m, e) ==
        ELSE [m1 EXCEPT !.exp = Bump(@, "inv")]      \* other NDP type on an advertising interface
 
 OnFwd(m, e) ==
-  LET m1 == IF m.retAt # -1 THEN Flag(m, "c08-ra-generation-after-return") ELSE m IN
-  [m1 EXCEPT !.pend = Append(@, e.val)]
+  IF m.inQuery THEN [m EXCEPT !.qreads = Append(@, e.val)]
+  ELSE LET m1 == IF m.retAt # -1 THEN Flag(m, "c08-ra-generation-after-return") ELSE m IN
+       [m1 EXCEPT !.pend = Append(@, e.val),
+                  !.nFalse = IF ~e.val /\ m.cfglife > 0 /\ m.cancelAt = -1 THEN @ + 1 ELSE @]
+
+\* C04 on the metrics and debug-API paths: the query reads forwarding once for this interface and reports
+\* exactly what an RA generated at that moment would carry
+OnQueryCall(m, e) == [m EXCEPT !.inQuery = TRUE, !.qreads = <<>>]
+OnScrape(m, e) ==     \* e.ok, e.fwd (gauge), e.misconf (interface_not_forwarding sample present)
+  LET m1 == IF ~e.ok THEN m          \* an error answer is judged by C17
+            ELSE IF Len(m.qreads) # 1 THEN Flag(m, "c04-scrape-did-not-read-forwarding-exactly-once")
+            ELSE IF e.fwd # m.qreads[1] THEN Flag(m, "c04-forwarding-gauge-differs-from-state")
+            ELSE IF e.misconf # (~m.qreads[1] /\ m.cfglife > 0 /\ ~m.monmode) THEN Flag(m, "c04-misconfiguration-gauge-wrong")
+            ELSE m
+  IN [m1 EXCEPT !.inQuery = FALSE, !.qreads = <<>>]
+OnApi(m, e) ==        \* e.ok, e.life (router_lifetime_seconds for this interface)
+  LET m1 == IF ~e.ok \/ m.monmode THEN m
+            ELSE IF Len(m.qreads) # 1 THEN Flag(m, "c04-api-did-not-read-forwarding-exactly-once")
+            ELSE IF e.life # (IF m.qreads[1] THEN m.cfglife ELSE 0) THEN Flag(m, "c04-api-router-lifetime-wrong")
+            ELSE m
+  IN [m1 EXCEPT !.inQuery = FALSE, !.qreads = <<>>]
+OnMisLog(m, e) == [m EXCEPT !.nMisLog = @ + 1]
 
 \* index of the first pending forwarding read with value v (0 if none)
 FirstPend(p, v) == IF \E i \in 1..Len(p) : p[i] = v
@@ -179,7 +204,7 @@ OnWCall(m, e) ==
                     /\ ~(m.lastTrig # -1 /\ e.t - m.lastTrig <= MinDelay)   \* a burst may legitimately get a second RA
                  THEN Flag(m, "c07-c09-multicast-ra-without-any-trigger")
             ELSE IF ~mc /\ oi = 0 THEN Flag(m, "c07-unsolicited-or-duplicate-unicast-ra")
-            ELSE IF ~mc /\ e.t - m.owedU[oi].t >= MaxRADelay THEN Flag(m, "c07-unicast-ra-late")
+            ELSE IF ~mc /\ ~m.anyHold /\ e.t - m.owedU[oi].t >= MaxRADelay THEN Flag(m, "c07-unicast-ra-late")
             ELSE IF m.body # "" /\ e.body # m.body THEN Flag(m, "c04-c08-content-other-than-lifetime-changed")
             ELSE m
   IN [m1 EXCEPT !.nW = @ + 1, !.nOpen = @ + 1,
@@ -224,7 +249,7 @@ OnCancel(m, e) == IF m.cancelAt # -1 THEN m
                   ELSE [m EXCEPT !.cancelAt = e.t, !.term = e.term,
                                  !.upAtCancel = Up(m) /\ m.faultAt = -1, !.faultAtCancel = m.faultAt # -1]
 OnLink(m, e)   == IF Up(m) /\ m.cancelAt = -1 /\ m.faultAt = -1 THEN [m EXCEPT !.faultAt = e.t] ELSE m
-OnHold(m, e)    == [m EXCEPT !.nHeld = @ + 1]
+OnHold(m, e)    == [m EXCEPT !.nHeld = @ + 1, !.anyHold = TRUE]
 OnRelease(m, e) == [m EXCEPT !.nHeld = IF @ > 0 THEN @ - 1 ELSE 0]
 
 \* A quiescent point at time T: every goroutine is blocked.
@@ -235,7 +260,8 @@ OnQuiet(m, e) ==
              THEN Flag(m2, "c05-unsolicited-multicast-ra-overdue") ELSE m2
       m3 == IF Live(m2b) /\ ~m2b.reading /\ m2.resumeAt = -1 /\ m2.nHeld = 0 /\ m2.retAt = -1
             THEN Flag(m2b, "c09-listener-not-receiving") ELSE m2b
-  IN [m3 EXCEPT !.pend = <<>>]       \* nobody is between a forwarding read and its transmission
+      m4 == IF m3.cancelAt = -1 /\ m3.nMisLog # m3.nFalse THEN Flag(m3, "c04-misconfiguration-log-lines-differ-from-generations") ELSE m3
+  IN [m4 EXCEPT !.pend = <<>>, !.nFalse = 0, !.nMisLog = 0]       \* nobody is between a forwarding read and its transmission
 
 \* The driver is about to let virtual time pass (only ever at a quiescent point).
 OnAdvance(m, e) ==
